@@ -4,7 +4,7 @@ CFG = dict(
               "C02.watermark_monotone", "C02.send_retry", "C02.facts_watermark", "C02.sliding_no_early_fire",
               "C02.session_no_early_delivery", "C02.session_drop_only_if_late", "C02.session_late_update", "C02.sliding_late_update_contents", "C02.sliding_every_open_window_redelivered",
               "C02.tumbling_no_early_fire_full", "C02.tumbling_no_early_fire_prefix", "C02.sliding_no_early_fire_full", "C02.session_no_early_delivery_full",
-              "C02.session_registered_kept", "C02.session_fired_registered", "C02.session_open_entry_redelivered"],
+              "C02.session_registered_kept", "C02.session_fired_registered", "C02.session_open_entry_redelivered", "C02.session_late_row_redelivered_run"],
     unproved=[],
     rule="tumbling (ALLOWEDLATENESS in {0,1,size/2,size,3size,20size}), sliding (lateness in {0,1,slide,3size}) and session (lateness in {0,1,timeout,5timeout,40timeout}; twin and ladder scenarios: several fired sessions of one key open for late rows at once) op sequences with late rows placed around "
          "MAXOUTOFORDERNESS and around window_end+ALLOWEDLATENESS, far-future and timestamp-less rows, lagging trigger (bursts of adds with undelivered watermarks), Adds in the unlock gap; distinct = distinct (cfg, op list)",
